@@ -24,11 +24,11 @@ package volatility
 //@ ensures[C04] forall kk :: 0 <= kk && kk < len(result0) ==> hor(result0, kk) <= max(hor(high, kk + (a.IdlePeriod())), max(hor(low, kk + (a.IdlePeriod())), hor(closing, kk + (a.IdlePeriod()))))
 //@ ensures[C04] forall kk :: 0 <= kk && kk < len(result1) ==> hor(result1, kk) <= max(hor(high, kk + (a.IdlePeriod())), max(hor(low, kk + (a.IdlePeriod())), hor(closing, kk + (a.IdlePeriod()))))
 //@ ensures[C04] forall kk :: 0 <= kk && kk < len(result2) ==> hor(result2, kk) <= max(hor(high, kk + (a.IdlePeriod())), max(hor(low, kk + (a.IdlePeriod())), hor(closing, kk + (a.IdlePeriod()))))
-//@ step[C01,C15] "factors" forall j :: 0 <= j && j < len(high) ==> res(Multiply, 0)[j] == accUpS(high, low)[j] && res(Multiply, 1)[j] == accLoS(high, low)[j]
+//@ step[C01,C15,C18] "factors" forall j :: 0 <= j && j < len(high) ==> res(Multiply, 0)[j] == accUpS(high, low)[j] && res(Multiply, 1)[j] == accLoS(high, low)[j]
 //@ use psum_cong(res(Multiply, 0), accUpS(high, low), _)
 //@ use psum_cong(res(Multiply, 1), accLoS(high, low), _)
-//@ step[C01,C15] "formula" forall k :: 0 <= k && k < len(result1) ==> result0[k] == smaS(accUpS(high, low), a.Period)[k] && result1[k] == smaS(closing, a.Period)[k] && result2[k] == smaS(accLoS(high, low), a.Period)[k]
-//@ ensures[C01] "formula" forall k :: 0 <= k && k < len(result1) ==> result0[k] == smaS(accUpS(high, low), a.Period)[k] && result1[k] == smaS(closing, a.Period)[k] && result2[k] == smaS(accLoS(high, low), a.Period)[k]
+//@ step[C01,C15,C18] "formula" forall k :: 0 <= k && k < len(result1) ==> result0[k] == smaS(accUpS(high, low), a.Period)[k] && result1[k] == smaS(closing, a.Period)[k] && result2[k] == smaS(accLoS(high, low), a.Period)[k]
+//@ ensures[C01,C18] "formula" forall k :: 0 <= k && k < len(result1) ==> result0[k] == smaS(accUpS(high, low), a.Period)[k] && result1[k] == smaS(closing, a.Period)[k] && result2[k] == smaS(accLoS(high, low), a.Period)[k]
 //@ use accS_ordered(high, low, closing, a.Period, _)
 //@ ensures[C15] "ordered" forall k :: 0 <= k && k < len(result1) && (forall j :: k <= j && j < k + a.Period ==> 0 < low[j] && barok(high, low, closing, j)) ==> result0[k] >= result1[k] && result1[k] >= result2[k]
 
@@ -40,9 +40,9 @@ package volatility
 //@ ensures[C03] consumed(highs) == len(highs) && consumed(lows) == len(lows) && consumed(closings) == len(closings) && closed(result)
 //@ ensures[C04] forall kk :: 0 <= kk && kk < len(result) ==> hor(result, kk) <= max(hor(highs, kk + (a.IdlePeriod())), max(hor(lows, kk + (a.IdlePeriod())), hor(closings, kk + (a.IdlePeriod()))))
 //@ import "positivity", "sma-value"
-//@ step[C01,C15] "true-range" forall k :: 0 <= k && k < len(tr) ==> tr[k] == trS(highs, lows, closings)[k]
+//@ step[C01,C15,C18] "true-range" forall k :: 0 <= k && k < len(tr) ==> tr[k] == trS(highs, lows, closings)[k]
 //@ use psum_cong(tr, trS(highs, lows, closings), _)
-//@ ensures[C01] "formula-sma" istype(a.Ma, "trend.Sma") ==> (forall k :: 0 <= k && k < len(result) ==> result[k] == smaS(trS(highs, lows, closings), as(a.Ma, "trend.Sma").Period)[k])
+//@ ensures[C01,C18] "formula-sma" istype(a.Ma, "trend.Sma") ==> (forall k :: 0 <= k && k < len(result) ==> result[k] == smaS(trS(highs, lows, closings), as(a.Ma, "trend.Sma").Period)[k])
 //@ ensures[C15] "non-negative" posma(a.Ma) && (forall j :: 0 <= j && j < len(highs) ==> lows[j] <= highs[j]) ==> (forall k :: 0 <= k && k < len(result) ==> result[k] >= 0)
 
 //@ func BollingerBands.Compute
@@ -54,8 +54,8 @@ package volatility
 //@ ensures[C04] forall kk :: 0 <= kk && kk < len(result2) ==> hor(result2, kk) <= hor(c, kk + (b.IdlePeriod()))
 //@ use psum_cong(cs[0], c, _)
 //@ use std_cong(cs[1], c, b.Period, _)
-//@ step[C01,C15] "parts" forall k :: 0 <= k && k < len(result1) ==> result1[k] == smaS(c, b.Period)[k] && std2s[0][k] == 2 * stdS(c, b.Period)[k] && std2s[0][k] >= 0
-//@ ensures[C01] "formula" forall k :: 0 <= k && k < len(result1) ==> result1[k] == smaS(c, b.Period)[k] && result0[k] == smaS(c, b.Period)[k] + 2 * stdS(c, b.Period)[k] && result2[k] == smaS(c, b.Period)[k] - 2 * stdS(c, b.Period)[k]
+//@ step[C01,C15,C18] "parts" forall k :: 0 <= k && k < len(result1) ==> result1[k] == smaS(c, b.Period)[k] && std2s[0][k] == 2 * stdS(c, b.Period)[k] && std2s[0][k] >= 0
+//@ ensures[C01,C18] "formula" forall k :: 0 <= k && k < len(result1) ==> result1[k] == smaS(c, b.Period)[k] && result0[k] == smaS(c, b.Period)[k] + 2 * stdS(c, b.Period)[k] && result2[k] == smaS(c, b.Period)[k] - 2 * stdS(c, b.Period)[k]
 //@ ensures[C15] "ordered" forall k :: 0 <= k && k < len(result1) ==> result0[k] >= result1[k] && result1[k] >= result2[k]
 
 // Band Width = (Upper Band - Lower Band) / Middle Band
@@ -79,8 +79,8 @@ package volatility
 //@ ensures[C02] len(result) == max(0, len(c) - (b.IdlePeriod()))
 //@ ensures[C03] consumed(c) == len(c) && closed(result)
 //@ ensures[C04] forall kk :: 0 <= kk && kk < len(result) ==> hor(result, kk) <= hor(c, kk + (b.IdlePeriod()))
-//@ step[C01,C15] "formula" forall k :: 0 <= k && k < len(result) ==> result[k] == bbwS(c, b.BollingerBands.Period)[k]
-//@ ensures[C01] "formula" forall k :: 0 <= k && k < len(result) ==> result[k] == bbwS(c, b.BollingerBands.Period)[k]
+//@ step[C01,C15,C18] "formula" forall k :: 0 <= k && k < len(result) ==> result[k] == bbwS(c, b.BollingerBands.Period)[k]
+//@ ensures[C01,C18] "formula" forall k :: 0 <= k && k < len(result) ==> result[k] == bbwS(c, b.BollingerBands.Period)[k]
 //@ use bbwS_nonneg(c, b.BollingerBands.Period, _)
 //@ ensures[C15] "non-negative" forall k :: 0 <= k && k < len(result) && (forall j :: k <= j && j < k + b.BollingerBands.Period ==> c[j] > 0) ==> result[k] >= 0
 
@@ -95,8 +95,8 @@ package volatility
 //@ use wmax_cong(highsSplice[0], highs, _, _)
 //@ use wmin_cong(lowsSplice[0], lows, _, _)
 //@ use psum_cong(trS(highsSplice[1], lowsSplice[1], closings), trS(highs, lows, closings), _)
-//@ step[C01] "atr" forall k :: 0 <= k && k < len(result0) ==> res(Atr_Compute, 0)[k] == smaS(trS(highs, lows, closings), c.Period)[k]
-//@ ensures[C01] "documented" forall k :: 0 <= k && k < len(result0) ==> result0[k] == wmaxS(highs, k + 1, k + 1 + c.Period) - smaS(trS(highs, lows, closings), c.Period)[k] * c.Multiplier && result1[k] == wminS(lows, k + 1, k + 1 + c.Period) + smaS(trS(highs, lows, closings), c.Period)[k] * c.Multiplier
+//@ step[C01,C18] "atr" forall k :: 0 <= k && k < len(result0) ==> res(Atr_Compute, 0)[k] == smaS(trS(highs, lows, closings), c.Period)[k]
+//@ ensures[C01,C18] "documented" forall k :: 0 <= k && k < len(result0) ==> result0[k] == wmaxS(highs, k + 1, k + 1 + c.Period) - smaS(trS(highs, lows, closings), c.Period)[k] * c.Multiplier && result1[k] == wminS(lows, k + 1, k + 1 + c.Period) + smaS(trS(highs, lows, closings), c.Period)[k] * c.Multiplier
 
 //@ func DonchianChannel.Compute
 //@ requires d.Max.Period >= 1 && d.Min.Period == d.Max.Period && consumed(c) == 0
@@ -105,8 +105,8 @@ package volatility
 //@ ensures[C04] forall kk :: 0 <= kk && kk < len(result0) ==> hor(result0, kk) <= hor(c, kk + (d.IdlePeriod()))
 //@ ensures[C04] forall kk :: 0 <= kk && kk < len(result1) ==> hor(result1, kk) <= hor(c, kk + (d.IdlePeriod()))
 //@ ensures[C04] forall kk :: 0 <= kk && kk < len(result2) ==> hor(result2, kk) <= hor(c, kk + (d.IdlePeriod()))
-//@ ensures[C01] "upper-lower" forall k :: 0 <= k && k < len(result0) ==> result0[k] == wmaxS(c, k, k + d.Max.Period) && result2[k] == wminS(c, k, k + d.Max.Period)
-//@ ensures[C01] "middle" forall k :: 0 <= k && k < len(result1) ==> result1[k] == (result0[k] + result2[k]) / 2
+//@ ensures[C01,C18] "upper-lower" forall k :: 0 <= k && k < len(result0) ==> result0[k] == wmaxS(c, k, k + d.Max.Period) && result2[k] == wminS(c, k, k + d.Max.Period)
+//@ ensures[C01,C18] "middle" forall k :: 0 <= k && k < len(result1) ==> result1[k] == (result0[k] + result2[k]) / 2
 //@ ensures[C15] "ordered" forall k :: 0 <= k && k < len(result1) ==> result0[k] >= result1[k] && result1[k] >= result2[k]
 //@ use wmax_cong(closings[0], c, _, _)
 //@ use wmin_cong(closings[1], c, _, _)
@@ -119,19 +119,19 @@ package volatility
 //@ ensures[C04] forall kk :: 0 <= kk && kk < len(result1) ==> hor(result1, kk) <= max(hor(highs, kk + (k.IdlePeriod())), max(hor(lows, kk + (k.IdlePeriod())), hor(closings, kk + (k.IdlePeriod()))))
 //@ ensures[C04] forall kk :: 0 <= kk && kk < len(result2) ==> hor(result2, kk) <= max(hor(highs, kk + (k.IdlePeriod())), max(hor(lows, kk + (k.IdlePeriod())), hor(closings, kk + (k.IdlePeriod()))))
 //@ use ema_cong(closingsSplice[1], closings, k.Ema.Period, k.Ema.Smoothing / (k.Ema.Period + 1), _)
-//@ step[C01,C15] "middle" forall kk :: 0 <= kk && kk < len(result1) ==> result1[kk] == emaS(closings, k.Ema.Period, k.Ema.Smoothing / (k.Ema.Period + 1), kk + (k.Atr.IdlePeriod() - k.Ema.IdlePeriod()))
-//@ ensures[C01] "middle" forall kk :: 0 <= kk && kk < len(result1) ==> result1[kk] == emaS(closings, k.Ema.Period, k.Ema.Smoothing / (k.Ema.Period + 1), kk + (k.Atr.IdlePeriod() - k.Ema.IdlePeriod()))
-//@ guarantees[C01] "bands" forall kk :: 0 <= kk && kk < len(result1) ==> result0[kk] == result1[kk] + 2 * res(Atr_Compute, 0)[kk] && result2[kk] == result1[kk] - 2 * res(Atr_Compute, 0)[kk]
+//@ step[C01,C15,C18] "middle" forall kk :: 0 <= kk && kk < len(result1) ==> result1[kk] == emaS(closings, k.Ema.Period, k.Ema.Smoothing / (k.Ema.Period + 1), kk + (k.Atr.IdlePeriod() - k.Ema.IdlePeriod()))
+//@ ensures[C01,C18] "middle" forall kk :: 0 <= kk && kk < len(result1) ==> result1[kk] == emaS(closings, k.Ema.Period, k.Ema.Smoothing / (k.Ema.Period + 1), kk + (k.Atr.IdlePeriod() - k.Ema.IdlePeriod()))
+//@ guarantees[C01,C18] "bands" forall kk :: 0 <= kk && kk < len(result1) ==> result0[kk] == result1[kk] + 2 * res(Atr_Compute, 0)[kk] && result2[kk] == result1[kk] - 2 * res(Atr_Compute, 0)[kk]
 //@ use psum_cong(trS(highs, lows, closingsSplice[0]), trS(highs, lows, closings), _)
-//@ step[C01] "atr-sma" istype(k.Atr.Ma, "trend.Sma") ==> (forall kk :: 0 <= kk && kk < len(result1) ==> res(Atr_Compute, 0)[kk] == smaS(trS(highs, lows, closings), as(k.Atr.Ma, "trend.Sma").Period)[kk])
-//@ ensures[C01] "bands-sma" istype(k.Atr.Ma, "trend.Sma") ==> (forall kk :: 0 <= kk && kk < len(result1) ==> result0[kk] == result1[kk] + 2 * smaS(trS(highs, lows, closings), as(k.Atr.Ma, "trend.Sma").Period)[kk] && result2[kk] == result1[kk] - 2 * smaS(trS(highs, lows, closings), as(k.Atr.Ma, "trend.Sma").Period)[kk])
+//@ step[C01,C18] "atr-sma" istype(k.Atr.Ma, "trend.Sma") ==> (forall kk :: 0 <= kk && kk < len(result1) ==> res(Atr_Compute, 0)[kk] == smaS(trS(highs, lows, closings), as(k.Atr.Ma, "trend.Sma").Period)[kk])
+//@ ensures[C01,C18] "bands-sma" istype(k.Atr.Ma, "trend.Sma") ==> (forall kk :: 0 <= kk && kk < len(result1) ==> result0[kk] == result1[kk] + 2 * smaS(trS(highs, lows, closings), as(k.Atr.Ma, "trend.Sma").Period)[kk] && result2[kk] == result1[kk] - 2 * smaS(trS(highs, lows, closings), as(k.Atr.Ma, "trend.Sma").Period)[kk])
 //@ ensures[C15] "ordered" posma(k.Atr.Ma) && (forall j :: 0 <= j && j < len(highs) ==> lows[j] <= highs[j]) ==> (forall kk :: 0 <= kk && kk < len(result1) ==> result0[kk] >= result1[kk] && result1[kk] >= result2[kk])
 
 // moving standard deviation: sqrt of the mean squared deviation from the window mean (population form)
 //@ stream stdS(c stream, P int)[k] = sqrt(devsq(c, k, k + P, (psum(c, k + P) - psum(c, k)) / P) / P)
 //@ lemma std_cong(a stream, b stream, P int, k int)
 //@ requires[C01,C15] k >= 0 && P >= 1 && (forall j :: 0 <= j && j < k + P ==> a[j] == b[j])
-//@ ensures[C01,C15] stdS(a, P)[k] == stdS(b, P)[k]
+//@ ensures[C01,C15,C18] stdS(a, P)[k] == stdS(b, P)[k]
 //@ use psum_cong(a, b, k + P)
 //@ use psum_cong(a, b, k)
 //@ use devsq_cong(a, b, k, k + P, _)
@@ -144,7 +144,7 @@ package volatility
 //@ loop#0 invariant sent(result) == max(0, consumed(c) - (m.Period - 1))
 //@ loop#0 invariant forall k :: 0 <= k && k < sent(result) ==> hor(result, k) <= hor(c, k + m.Period - 1)
 //@ loop#1 invariant 0 <= i && i <= m.Period && rwf(ring) && len(ring.buffer) == m.Period
-//@ ensures[C01] "formula" forall k :: 0 <= k && k < len(result) ==> result[k] == stdS(c, m.Period)[k]
+//@ ensures[C01,C18] "formula" forall k :: 0 <= k && k < len(result) ==> result[k] == stdS(c, m.Period)[k]
 //@ ensures[C15] "non-negative" forall k :: 0 <= k && k < len(result) ==> result[k] >= 0
 //@ loop#0 invariant forall p :: 0 <= p && p < m.Period && rlpos(ring, p) < rsize(ring) ==> ring.buffer[p] == c[consumed(c) - rsize(ring) + rlpos(ring, p)]
 //@ loop#0 invariant forall p :: 0 <= p && p < m.Period && rlpos(ring, p) >= rsize(ring) ==> ring.buffer[p] == 0
@@ -163,8 +163,8 @@ package volatility
 //@ ensures[C04] forall kk :: 0 <= kk && kk < len(result) ==> hor(result, kk) <= hor(closings, kk + (p.IdlePeriod()))
 //@ use psum_cong(closingsSplice[0], closings, _)
 //@ use std_cong(closingsSplice[0], closings, p.BollingerBands.Period, _)
-//@ step[C01] "bands" forall k :: 0 <= k && k < len(result) ==> upperBands[k] == smaS(closings, p.BollingerBands.Period)[k] + 2 * stdS(closings, p.BollingerBands.Period)[k] && lowerBands[k] == smaS(closings, p.BollingerBands.Period)[k] - 2 * stdS(closings, p.BollingerBands.Period)[k]
-//@ ensures[C01] "documented" forall k :: 0 <= k && k < len(result) ==> result[k] == (closings[k + p.BollingerBands.Period - 1] - (smaS(closings, p.BollingerBands.Period)[k] - 2 * stdS(closings, p.BollingerBands.Period)[k])) / ((smaS(closings, p.BollingerBands.Period)[k] + 2 * stdS(closings, p.BollingerBands.Period)[k]) - (smaS(closings, p.BollingerBands.Period)[k] - 2 * stdS(closings, p.BollingerBands.Period)[k]))
+//@ step[C01,C18] "bands" forall k :: 0 <= k && k < len(result) ==> upperBands[k] == smaS(closings, p.BollingerBands.Period)[k] + 2 * stdS(closings, p.BollingerBands.Period)[k] && lowerBands[k] == smaS(closings, p.BollingerBands.Period)[k] - 2 * stdS(closings, p.BollingerBands.Period)[k]
+//@ ensures[C01,C18] "documented" forall k :: 0 <= k && k < len(result) ==> result[k] == (closings[k + p.BollingerBands.Period - 1] - (smaS(closings, p.BollingerBands.Period)[k] - 2 * stdS(closings, p.BollingerBands.Period)[k])) / ((smaS(closings, p.BollingerBands.Period)[k] + 2 * stdS(closings, p.BollingerBands.Period)[k]) - (smaS(closings, p.BollingerBands.Period)[k] - 2 * stdS(closings, p.BollingerBands.Period)[k]))
 
 // PL = Min(period, (high + MLS(period, x, high))), PH = Max(period, (low + MLS(period, x, low))), x = 1, 2, 3, ...,
 // PO = 100 * (Closing - PL) / (PH - PL), all at the same bar
@@ -176,7 +176,7 @@ package volatility
 //@ ensures[C02] len(result) == max(0, len(highs) - (p.IdlePeriod()))
 //@ ensures[C03] consumed(highs) == len(highs) && consumed(lows) == len(lows) && consumed(closings) == len(closings) && closed(result)
 //@ ensures[C04] forall kk :: 0 <= kk && kk < len(result) ==> hor(result, kk) <= max(hor(highs, kk + (p.IdlePeriod())), max(hor(lows, kk + (p.IdlePeriod())), hor(closings, kk + (p.IdlePeriod()))))
-//@ step[C01] "x" forall j :: 0 <= j && j < len(highs) ==> xSplice[0][j] == countS(1)[j] && xSplice[1][j] == countS(1)[j]
+//@ step[C01,C18] "x" forall j :: 0 <= j && j < len(highs) ==> xSplice[0][j] == countS(1)[j] && xSplice[1][j] == countS(1)[j]
 //@ use psum_cong(xSplice[0], countS(1), _)
 //@ use psum_cong(xSplice[1], countS(1), _)
 //@ use psum_cong(sqS(xSplice[0]), sqS(countS(1)), _)
@@ -185,11 +185,11 @@ package volatility
 //@ use psum_cong(lowsSplice[0], lows, _)
 //@ use psum_cong(mulS(xSplice[0], highsSplice[0]), mulS(countS(1), highs), _)
 //@ use psum_cong(mulS(xSplice[1], lowsSplice[0]), mulS(countS(1), lows), _)
-//@ step[C01] "slopes" forall j :: 0 <= j && j < len(plM) ==> plM[j] == mlsMS(countS(1), highs, p.mls.Sum.Period)[j] && phM[j] == mlsMS(countS(1), lows, p.mls.Sum.Period)[j]
-//@ step[C01] "projections" forall j :: 0 <= j && j < len(res(Add, 0)) ==> res(Add, 0)[j] == projS(highs, p.mls.Sum.Period)[j] && res(Add, 1)[j] == projS(lows, p.mls.Sum.Period)[j]
+//@ step[C01,C18] "slopes" forall j :: 0 <= j && j < len(plM) ==> plM[j] == mlsMS(countS(1), highs, p.mls.Sum.Period)[j] && phM[j] == mlsMS(countS(1), lows, p.mls.Sum.Period)[j]
+//@ step[C01,C18] "projections" forall j :: 0 <= j && j < len(res(Add, 0)) ==> res(Add, 0)[j] == projS(highs, p.mls.Sum.Period)[j] && res(Add, 1)[j] == projS(lows, p.mls.Sum.Period)[j]
 //@ use wmin_cong(res(Add, 0), projS(highs, p.mls.Sum.Period), _, _)
 //@ use wmax_cong(res(Add, 1), projS(lows, p.mls.Sum.Period), _, _)
-//@ ensures[C01] "documented" forall k :: 0 <= k && k < len(result) ==> result[k] == poS(highs, lows, closings, p.mls.Sum.Period, p.min.Period)[k]
+//@ ensures[C01,C18] "documented" forall k :: 0 <= k && k < len(result) ==> result[k] == poS(highs, lows, closings, p.mls.Sum.Period, p.min.Period)[k]
 
 // BasicUpperBands = (High + Low) / 2 + Multiplier * ATR, BasicLowerBands = (High + Low) / 2 - Multiplier * ATR,
 // FinalUpperBands / FinalLowerBands / SuperTrend / UpTrend by the documented recursion (spec functions stFU, stFL, stUP)
@@ -201,7 +201,7 @@ package volatility
 //@ lit#0 invariant first == (calls == 0) && (calls == 0 ==> !upTrend)
 //@ lit#0 invariant calls > 0 ==> finalUpperBand == stFU(medians, atrMultiples, closingsSplice[1], calls - 1) && finalLowerBand == stFL(medians, atrMultiples, closingsSplice[1], calls - 1) && upTrend == stUP(medians, atrMultiples, closingsSplice[1], calls - 1) && previousClosing == closingsSplice[1][calls - 1]
 //@ lit#0 yields (stUP(medians, atrMultiples, closingsSplice[1], calls) ? stFU(medians, atrMultiples, closingsSplice[1], calls) : stFL(medians, atrMultiples, closingsSplice[1], calls))
-//@ guarantees[C01] "aligned-inputs" forall j :: 0 <= j && j < len(result) ==> medians[j] == (highs[j + s.Atr.IdlePeriod()] + lows[j + s.Atr.IdlePeriod()]) / 2 && atrMultiples[j] == res(Atr_Compute, 0)[j] * s.Multiplier && closingsSplice[1][j] == closings[j + s.Atr.IdlePeriod()]
+//@ guarantees[C01,C18] "aligned-inputs" forall j :: 0 <= j && j < len(result) ==> medians[j] == (highs[j + s.Atr.IdlePeriod()] + lows[j + s.Atr.IdlePeriod()]) / 2 && atrMultiples[j] == res(Atr_Compute, 0)[j] * s.Multiplier && closingsSplice[1][j] == closings[j + s.Atr.IdlePeriod()]
 //@ guarantees[C01] "documented" forall k :: 0 <= k && k < len(result) ==> result[k] == (stUP(medians, atrMultiples, closingsSplice[1], k) ? stFU(medians, atrMultiples, closingsSplice[1], k) : stFL(medians, atrMultiples, closingsSplice[1], k))
 
 // Percentage Drawdown = 100 * ((Closings - High Closings) / High Closings), High Closings = Max(period, Closings);
@@ -215,11 +215,11 @@ package volatility
 //@ ensures[C03] consumed(closings) == len(closings) && closed(result)
 //@ ensures[C04] forall kk :: 0 <= kk && kk < len(result) ==> hor(result, kk) <= hor(closings, kk + (u.IdlePeriod()))
 //@ use wmax_cong(closingsSplice[0], closings, _, _)
-//@ step[C01,C15] "drawdown" forall j :: 0 <= j && j < len(percentageDrawdown) ==> percentageDrawdown[j] == pdS(closings, u.Period)[j]
+//@ step[C01,C15,C18] "drawdown" forall j :: 0 <= j && j < len(percentageDrawdown) ==> percentageDrawdown[j] == pdS(closings, u.Period)[j]
 //@ use psum_cong(percentageDrawdown, pdS(closings, u.Period), _)
-//@ step[C01,C15] "average" forall k :: 0 <= k && k < len(result) ==> res(Sma_Compute, 0)[k] == smaS(pdS(closings, u.Period), u.Period)[k]
-//@ step[C01,C15] "as-implemented" forall k :: 0 <= k && k < len(result) ==> result[k] == sqrt(powr(smaS(pdS(closings, u.Period), u.Period)[k], 2))
-//@ ensures[C01] "as-implemented" forall k :: 0 <= k && k < len(result) ==> result[k] == sqrt(powr(smaS(pdS(closings, u.Period), u.Period)[k], 2))
+//@ step[C01,C15,C18] "average" forall k :: 0 <= k && k < len(result) ==> res(Sma_Compute, 0)[k] == smaS(pdS(closings, u.Period), u.Period)[k]
+//@ step[C01,C15,C18] "as-implemented" forall k :: 0 <= k && k < len(result) ==> result[k] == sqrt(powr(smaS(pdS(closings, u.Period), u.Period)[k], 2))
+//@ ensures[C01,C18] "as-implemented" forall k :: 0 <= k && k < len(result) ==> result[k] == sqrt(powr(smaS(pdS(closings, u.Period), u.Period)[k], 2))
 //@ guarantees[C01] "documented" forall k :: 0 <= k && k < len(result) ==> result[k] == ulcerS(closings, u.Period)[k]
 //@ ensures[C15] "non-negative" forall k :: 0 <= k && k < len(result) ==> result[k] >= 0
 
